@@ -60,13 +60,13 @@ PrefixOK(h, roots, out) ==
 (* R_C11.  ANY valid topological order is accepted.                        *)
 (*   acyclic: finished normally, every reachable class exactly once,       *)
 (*            dependencies first;                                          *)
-(*   cyclic : the schema-parse error (anything yielded before it must      *)
-(*            still be a sound prefix);                                    *)
+(*   cyclic : the schema-parse error and nothing else ("raises ... instead *)
+(*            of yielding a partial or wrong order");                      *)
 (*   a hang ("timeout") or any other exception is never acceptable.        *)
 (***************************************************************************)
 R_C11(h, roots, kind, out) ==
   IF Cyclic(h, roots)
-  THEN kind = "SchemaParseError" /\ PrefixOK(h, roots, out)
+  THEN kind = "SchemaParseError" /\ out = <<>>      \* refused INSTEAD of a partial order: nothing came out
   ELSE /\ kind = "done"
        /\ PrefixOK(h, roots, out)
        /\ SeqRange(out) = NamesOf(h, ReachClasses(h, roots))
@@ -75,7 +75,7 @@ R_C11(h, roots, kind, out) ==
 R_C11_clause(h, roots, kind, out) ==
   IF Cyclic(h, roots)
   THEN IF kind # "SchemaParseError" THEN "cycle-not-refused"
-       ELSE IF ~PrefixOK(h, roots, out) THEN "unsound-prefix-before-refusal" ELSE "ok"
+       ELSE IF out # <<>> THEN "partial-order-before-refusal" ELSE "ok"
   ELSE IF kind = "SchemaParseError" THEN "acyclic-refused"
        ELSE IF kind # "done" THEN "abnormal-end"
        ELSE IF ~NoDup(out) THEN "duplicate"
